@@ -389,3 +389,138 @@ impl Engine for C16Engine {
         CaseReport { viols: viol::take(), nontrivial, labels, trace: trace_out }
     }
 }
+
+
+// ------------------------------------------------------------------------------------
+// the same grid on a 32-bit usize: executed by Miri for i686 (harness/m32), the only 32-bit execution
+// vehicle in this sandbox. The interpreter is not the oracle; termination and output are, as above.
+// ------------------------------------------------------------------------------------
+
+pub const FIXED32: [u64; 10] = [1, 2, 1 << 20, 1 << 30, (i32::MAX - 1) as u64, i32::MAX as u64, i32::MAX as u64 + 1, i32::MAX as u64 + 2, u32::MAX as u64 - 1, u32::MAX as u64];
+
+pub struct C16M32Engine {
+    pub fixed_grid: bool,
+}
+
+/// Some(reason) if `cargo +nightly miri` cannot run the i686 program here (then the stage is skipped)
+pub fn m32_unavailable() -> Option<String> {
+    use std::sync::OnceLock;
+    static R: OnceLock<Option<String>> = OnceLock::new();
+    R.get_or_init(|| {
+        let o = m32_run(0, 1);
+        if o.stdout.contains("AFTER count=2") {
+            None
+        } else {
+            Some(format!("exit {:?}: {}", o.code, o.stderr.lines().filter(|l| l.starts_with("error")).next().unwrap_or("no output")))
+        }
+    })
+    .clone()
+}
+
+fn m32_run(entry: usize, start: u64) -> child::Outcome {
+    let dir = rt::run::verif_root().join("harness/m32");
+    child::run(
+        "cargo",
+        &[
+            "+nightly".into(),
+            "miri".into(),
+            "run".into(),
+            "--offline".into(),
+            "-q".into(),
+            "--target".into(),
+            "i686-unknown-linux-gnu".into(),
+            "--manifest-path".into(),
+            dir.join("Cargo.toml").to_string_lossy().into_owned(),
+            "--target-dir".into(),
+            rt::run::verif_root().join("harness/target/m32").to_string_lossy().into_owned(),
+            "--".into(),
+            entry.to_string(),
+            start.to_string(),
+        ],
+        &[("MIRIFLAGS", "-Zmiri-ignore-leaks -Zmiri-disable-stacked-borrows".to_string()), ("RUSTFLAGS", String::new())],
+        Duration::from_secs(600),
+    )
+}
+
+impl Engine for C16M32Engine {
+    fn name(&self) -> String {
+        if self.fixed_grid { "c16-miri-i686/grid".into() } else { "c16-miri-i686/random".into() }
+    }
+    fn params_len(&self) -> usize {
+        6
+    }
+    fn ops_range(&self) -> (usize, usize) {
+        (0, 0)
+    }
+    fn enum_len(&self) -> Option<u64> {
+        if self.fixed_grid {
+            Some((ENTRIES.len() * 10) as u64)
+        } else {
+            None
+        }
+    }
+    fn enum_at(&self, i: u64) -> Option<ByteCase> {
+        let (e, k) = (i as usize / 10, i as usize % 10);
+        let pe = ((e * 256 + ENTRIES.len() - 1) / ENTRIES.len()) as u8;
+        let pk = ((k * 256 + 13) / 14) as u8;
+        Some(ByteCase { params: vec![pe, pk, 0, 0, 0, 0], ops: vec![] })
+    }
+    fn run(&self, c: &ByteCase, trace: bool) -> CaseReport {
+        let _ = viol::take();
+        if let Some(why) = m32_unavailable() {
+            // not a verdict: the stage cannot run here
+            return CaseReport { viols: vec![], nontrivial: false, labels: vec!["miri-i686-unavailable"], trace: if trace { vec![format!("skipped: {}", why)] } else { vec![] } };
+        }
+        let entry = pick(c.p(0), ENTRIES.len());
+        let cls = pick(c.p(1), 14);
+        let raw = u32::from_le_bytes([c.p(2), c.p(3), c.p(4), c.p(5)]) as u64;
+        let limit = i32::MAX as u64;
+        let (start, name): (u64, &'static str) = if cls < 10 {
+            (FIXED32[cls], "fixed")
+        } else if cls == 10 {
+            (limit + 1 + raw % 4096, "just-above-limit")
+        } else if cls == 11 {
+            (limit - 1 - raw % 4096, "just-below-limit")
+        } else if cls == 12 {
+            (raw | (1 << 31), "random-above")
+        } else {
+            ((raw & (u32::MAX as u64 >> 1)).clamp(1, limit - 1), "random-below")
+        };
+        let o = m32_run(entry, start);
+        let what = format!("[32-bit usize, Miri i686] {} with the count preset to {:#x}", ENTRIES[entry], start);
+        let after = o.stdout.lines().find(|l| l.starts_with("AFTER")).map(|l| l.to_string());
+        let caught = o.stdout.contains("CAUGHT");
+        let aborted = o.stderr.contains("the program aborted execution");
+        let sig = format!("m32:{}:{}", ENTRIES[entry], if start > limit { "above-limit" } else if start == limit { "at-limit" } else { "below-limit" });
+        let mut bad: Option<String> = None;
+        if o.timed_out || o.stdout.contains("SETUP-FAILED") || o.stderr.contains("Undefined Behavior") || (!aborted && after.is_none() && !caught) {
+            viol::report_sig(&["C16"], "O.setup", format!("m32-setup:{}", ENTRIES[entry]), format!("{}: the interpreter run failed: {} {}", what, o.stdout.trim(), o.stderr.lines().filter(|l| l.starts_with("error")).next().unwrap_or("")));
+        } else if start < limit {
+            let want = format!("AFTER count={}", start + 1);
+            if aborted || after.as_deref() != Some(want.as_str()) {
+                bad = Some(format!("{}: expected a successful clone adding exactly one ({}), got aborted={} stdout {:?}", what, want, aborted, o.stdout.trim()));
+            }
+        } else if start > limit {
+            if !aborted || after.is_some() || caught {
+                bad = Some(format!("{}: expected the process to abort before another handle is produced; got aborted={} stdout {:?}{}", what, aborted, o.stdout.trim(), if caught { " (the failure was a catchable panic)" } else { "" }));
+            }
+        } else {
+            let want = format!("AFTER count={}", (start + 1) & 0xffff_ffff);
+            let clean_ok = !aborted && after.as_deref() == Some(want.as_str());
+            let clean_abort = aborted && after.is_none() && !caught;
+            if !clean_ok && !clean_abort {
+                bad = Some(format!("{}: neither a clean success nor a clean abort: aborted={} stdout {:?}", what, aborted, o.stdout.trim()));
+            }
+        }
+        if let Some(m) = bad {
+            viol::report_sig(&["C16"], "O.overflow", sig, m);
+        }
+        let nontrivial = start > limit || start == limit - 1;
+        let mut labels = vec![name, "32-bit"];
+        if start > limit {
+            labels.push("start>i32::MAX (32-bit)");
+        }
+        let trace_out = if trace { vec![format!("{} -> aborted={} stdout {:?}", what, aborted, o.stdout.trim())] } else { vec![] };
+        CaseReport { viols: viol::take(), nontrivial, labels, trace: trace_out }
+    }
+}
